@@ -10,6 +10,9 @@ CHECKS = {
     "C16": ("Hypothesis-generated shapes/cutoffs/orders vs float64 Butterworth reference; differential between 4 implementations; enumerated axis lengths 1..16",
             "Generated-input exploration with an explicit reference oracle (value, shape, realness, linearity, mean, identity, ft==fft(real), zero phase). Absence is not established; the per-axis grid 1..16 is enumerated completely.",
             "numpy backend only; float32 tolerances 1e-4 relative to max|input|; reference = numpy.fft float64", "4/C16"),
+    "C08": ("Hypothesis-generated (shape, orientation, tilt range, axis) vs float64 tilt-plane rule on physical frequencies; differential between all mask entry points; enumerated axis lengths 1..16 and small-shape grid",
+            "Generated-input exploration with an explicit geometric reference (bin-by-bin rule W, k->-k symmetry, realness on odd boxes, zero frequency, no-wedge, dual=union, entry-point agreement, invalid ranges rejected). Per-axis grids 1..16 enumerated.",
+            "handedness of the tilt angle calibrated on even cubic boxes (where code and reference agree on every bin); bins within 1e-5 (relative) of a plane are skipped and counted; numpy backend only", "4/C08"),
 }
 
 NOT_YET = {}
